@@ -160,6 +160,9 @@ class SmtLibSolver(Solver): # TODO this class is defined twice in pysmt. Here an
     @clear_pending_pop
     def reset_assertions(self):
         self._send_silent_command(SmtLibCommand(smtcmd.RESET_ASSERTIONS, []))
+        # reset-assertions also removes the declarations
+        self.declared_vars = [set()]
+        self.declared_sorts = [set()]
         return
 
     @clear_pending_pop
